@@ -34,6 +34,7 @@ type hbEv struct {
 	kind   string // lock unlock nilcheck poll wait close make spawn read return atomic store
 	detail string
 	held   map[string]int
+	depth  int // inlining depth of the frame that produced the event
 }
 
 type hbFrame struct {
@@ -55,6 +56,7 @@ type hbInterp struct {
 	spawned   *ast.FuncDecl
 	spawnArgs []string // per argument of the go call: "" or the channel value passed
 	stopParam string   // name of the channel parameter of the spawned function
+	depth     int
 }
 
 func (in *hbInterp) emit(kind, detail string) {
@@ -62,7 +64,7 @@ func (in *hbInterp) emit(kind, detail string) {
 	for k, v := range in.held {
 		h[k] = v
 	}
-	in.trace = append(in.trace, hbEv{kind: kind, detail: detail, held: h})
+	in.trace = append(in.trace, hbEv{kind: kind, detail: detail, held: h, depth: in.depth})
 }
 
 func hbUnparen(e ast.Expr) ast.Expr {
@@ -115,6 +117,9 @@ func (in *hbInterp) walkFunc(fr *hbFrame) {
 	if fr.fd == nil || fr.fd.Body == nil {
 		return
 	}
+	saved := in.depth
+	in.depth = fr.depth
+	defer func() { in.depth = saved }()
 	var defers []string
 	in.walkBlock(fr, fr.fd.Body.List, &defers)
 	for i := len(defers) - 1; i >= 0; i-- {
@@ -180,6 +185,17 @@ func (in *hbInterp) walkStmt(fr *hbFrame, st ast.Stmt, defers *[]string) {
 	case *ast.ExprStmt:
 		in.walkExpr(fr, x.X)
 	case *ast.AssignStmt:
+		for _, l := range x.Lhs {
+			if ix, ok := hbUnparen(l).(*ast.IndexExpr); ok {
+				if c := in.chanOf(fr, hbIndexBase(ix)); c != "" {
+					for _, r := range x.Rhs {
+						in.walkExpr(fr, r)
+					}
+					in.emit("write", c)
+					return
+				}
+			}
+		}
 		for i, r := range x.Rhs {
 			var l ast.Expr
 			if len(x.Lhs) == len(x.Rhs) {
@@ -462,7 +478,11 @@ func (in *hbInterp) call(fr *hbFrame, c *ast.CallExpr) {
 			m := in.mutexOf(fr, sel.X)
 			in.epoch[m]++
 			in.held[m] = in.epoch[m]
-			in.emit("lock", m)
+			if sel.Sel.Name == "RLock" {
+				in.emit("rlock", m)
+			} else {
+				in.emit("lock", m)
+			}
 			return
 		case "Unlock", "RUnlock":
 			m := in.mutexOf(fr, sel.X)
@@ -475,6 +495,12 @@ func (in *hbInterp) call(fr *hbFrame, c *ast.CallExpr) {
 	case name == "close" && len(c.Args) == 1:
 		if ch := in.chanOf(fr, c.Args[0]); ch != "" {
 			in.emit("close", ch)
+			return
+		}
+	case name == "delete" && len(c.Args) == 2:
+		if f := in.chanOf(fr, hbIndexBase(c.Args[0])); f != "" {
+			in.walkExpr(fr, c.Args[1])
+			in.emit("delete", f)
 			return
 		}
 	case name == "verifYield":
@@ -539,6 +565,17 @@ func (in *hbInterp) call(fr *hbFrame, c *ast.CallExpr) {
 		}
 	}
 	in.walkFunc(sub)
+}
+
+// hbIndexBase: m[k][j]... -> m
+func hbIndexBase(e ast.Expr) ast.Expr {
+	for {
+		ix, ok := hbUnparen(e).(*ast.IndexExpr)
+		if !ok {
+			return e
+		}
+		e = ix.X
+	}
 }
 
 func hbStripAddr(e ast.Expr) ast.Expr {
